@@ -1,6 +1,7 @@
 package checks
 
 import (
+	"encoding/json"
 	"fmt"
 	"runtime"
 	"sort"
@@ -48,6 +49,9 @@ func init() {
 			"{bind (valid / server already bound by the same client, another client of the peer, another peer / wrong role / wrong type / requested type Generic for concretely typed features / unknown entity / unknown feature, device part omitted; clients in [1], [1,1] and the device information entity [0]), " +
 			"unbind (holder / same numbers from another peer / other client of the holder's peer / holder's client on another server / unknown), registry read}; a fifth of the requests and half of the deletes that use the numbers of another peer's binding carry a FOREIGN device part " +
 			"in the client and/or server address (client address: the device of another connected peer - preferably the holder -, of the local device or of nobody; server address: the device of a peer or of nobody); non-trivial if it saw a grant, a rejection of a second binding and a successful unbind. " +
+			"Takeover (sequential, 4 % of the operations; duel, every third case before the concurrent phase): a peer opens a new connection with the same SKI while the stack still has the old one (SetupRemoteDevice for a registered SKI, no RemoveRemoteDevice(Connection)), and announces the same tree. Neither a bind nor a delete: " +
+			"no binding appears, is renumbered or moves, the other peers' bindings stay; the peer's own bindings may be kept or dropped (the statement is silent; dropped needs one remove event each; the duel only counts such a case); what the registry reports as bound stays bound for the new connection (same / another client), for the other peers and for a late request on the old connection, " +
+			"the holder's delete through the new connection removes the binding of its SKI, and the history (binds, deletes, registry reads over the wire) goes on with the new connection. " +
 			"duel case = k in 2..4 connections issuing bind (and unbind) for one server feature concurrently with the window after the single-binding check forced by a rendezvous or jittered; in every fifth case ('foreign') peer 0 holds the contested binding and a bystander binding on a second server feature, " +
 			"and the other connections send deletes and requests that name peer 0's (or another) device with numbers that exist on every peer, mixed with ordinary calls; non-trivial if the window was forced (all k binds held between check and insertion) or, for the jitter variants, if at least two operations overlapped, and porcupine decided. " +
 			"Every duel world has the nested twin of the contested feature ([1]/1 and [1,1]/1, same type; in half of the cases the contested one is the nested one; in half of the cases peer 0 holds a binding on the twin, which nobody names and which must be the same afterwards). " +
@@ -71,6 +75,7 @@ func init() {
 			"NodeManagement (special role) is not used as a binding target and special-role or Generic client features are not generated: the statement does not fix their treatment",
 			"a requested serverFeatureType Generic is not 'the requested type' of a concretely typed feature: such a request must be refused",
 			"rmw part: no hook point exists inside RemoveBinding; the overlap of calls is not forced but measured (counts rmw_rounds_*), and only logical call/return stamps are used",
+			"takeover: the statement does not say whether the bindings of a peer survive the replacement of its connection without removal; kept (same id, pinned tree) and dropped are accepted, anything else (a second binding on the feature, a changed id, another peer's binding touched) is not",
 			"a rendezvous that expires only means 'window not forced' (counted); it never decides a verdict",
 			"window part: a parked request may take effect anywhere between its call and its return (the statement does not say where): wherever the register model allows both outcomes, both are accepted; a hold that expires (45 s watchdog) only shortens the window (counted), the verdict is on call/return stamps in any case",
 		},
@@ -489,6 +494,181 @@ func c09Seq(c *rig.Ctx) {
 				c.Count("bind:device-omitted"+omit, 1)
 			}
 			shape = append(shape, fmt.Sprintf("bind:%s:%s:%s>%s%s:%v", reason, kind, cli, srv, omit, granted))
+
+		case roll >= 86 && roll < 90: // ---------------- the connection of a peer is replaced (same SKI), the old one was not removed
+			// "Several peers ... arriving on different connections": a peer (SKI) may open a new connection while the stack still
+			// has the old one (SetupRemoteDevice for a SKI that is registered; no RemoveRemoteDevice(Connection) ran). That is
+			// neither a bind nor a delete: no binding may appear, change its id or move, the bindings of the other peers stay as
+			// they are, and whatever the registry reports as bound afterwards is bound for EVERYBODY (the new connection, the
+			// other peers): at no time two bindings on a server feature. The statement does not say whether the peer's own
+			// bindings survive the replacement: kept (same id) and dropped (with a remove event each) are both accepted and the
+			// reference follows; the peer's list is the list of the SKI, so the holder's delete through the new connection
+			// removes a kept binding.
+			var hs []c08Entry
+			for _, s := range c09Servers {
+				if h, ok := binds[s]; ok {
+					hs = append(hs, h)
+				}
+			}
+			if len(hs) > 0 && r.Intn(4) > 0 { // prefer a peer that holds a binding
+				pi = hs[r.Intn(len(hs))].peer
+				p = w.Peers[pi]
+			}
+			var mine []c08Entry
+			for _, h := range hs {
+				if h.peer == pi {
+					mine = append(mine, h)
+				}
+			}
+			what := "takeover"
+			log("#%d peer%d opens a new connection (same SKI, same tree; the old connection was not removed); it holds %d bindings", step, pi, len(mine))
+			takeAll()
+			w.Core.Take()
+			othersBefore := bindSnapOthers(pi)
+			ownBefore := map[string]bool{}
+			for _, en := range bm.Bindings(p.RD) {
+				ownBefore[fmt.Sprintf("#%d %s>%s", en.Id, rkFeatKey(en.ClientFeature), rkFeatKey(en.ServerFeature))] = true
+			}
+			oldRD, oldTap := p.RD, p.Tap
+			p.Tap = &rig.Tap{}
+			w.Local.SetupRemoteDevice(p.Ski, p.Tap)
+			p.RD = w.Local.RemoteDeviceForSki(p.Ski)
+			c.Events(1)
+			if p.RD == nil || p.RD == oldRD {
+				c.Inconclusive("takeover: SetupRemoteDevice did not register a new connection object for the SKI")
+				p.RD = oldRD
+				break
+			}
+			p.Announce(rkAnnounceList(c08PeerFeats))
+			for qi, o := range takeAll() {
+				if qi != pi && len(o) > 0 {
+					fail(what+"/unexpected-datagram", "peer %d received %s", qi, rig.JS(o))
+				}
+			}
+			if how, detail := c08SnapDiff(othersBefore, bindSnapOthers(pi)); how != "" {
+				fail(what+"/"+strings.Replace(how, "entry", "binding", 1), "a new connection of peer %d changed the bindings of another peer: %s", pi, detail)
+				break
+			}
+			ownAfter := map[string]bool{}
+			for _, en := range bm.Bindings(p.RD) {
+				k := fmt.Sprintf("#%d %s>%s", en.Id, rkFeatKey(en.ClientFeature), rkFeatKey(en.ServerFeature))
+				c.Events(1)
+				if !ownBefore[k] || ownAfter[k] {
+					fail(what+"/binding-appears-or-changes", "a new connection of peer %d: Bindings(peer) lists %s, before: %v", pi, k, rkSorted(ownBefore))
+				}
+				ownAfter[k] = true
+			}
+			dropped := 0
+			for _, h := range mine {
+				kept := false
+				for k := range ownAfter {
+					if strings.HasSuffix(k, " "+pairKey(h)) {
+						kept = true
+					}
+				}
+				if !kept {
+					delete(binds, h.srv)
+					dropped++
+				}
+			}
+			adds, removes := 0, 0
+			var bev []string
+			for _, e := range w.Core.Take() {
+				if e.P.EventType == api.EventTypeBindingChange {
+					bev = append(bev, e.String())
+					if e.P.ChangeType == api.ElementChangeAdd {
+						adds++
+					} else {
+						removes++
+					}
+				}
+			}
+			c.Events(1)
+			if adds > 0 || removes != dropped {
+				fail(what+"/event-unexpected", "nobody bound or unbound anything and %d bindings of the peer are gone, yet %d add and %d remove binding change events were published: %v", dropped, adds, removes, bev)
+			}
+			judgeRegistry(what)
+			c.Count("op:takeover", 1)
+			c.Count(fmt.Sprintf("takeover_with_%d_bindings_of_the_peer", len(mine)), 1)
+			if dropped > 0 {
+				c.Count("takeover_dropped_bindings", int64(dropped))
+			}
+			var still []c08Entry
+			for _, h := range mine {
+				if _, ok := binds[h.srv]; ok {
+					still = append(still, h)
+				}
+			}
+			fu := "none"
+			if len(still) > 0 && !c.Failed() {
+				e := still[r.Intn(len(still))]
+				sa := cw.srvAddr(e.srv)
+				cs := cw.compatibleClients(e.srv)
+				switch r.Intn(6) {
+				case 0, 1, 2: // the feature is still bound: for the new connection (same or another client) and for the other peers
+					q, qi, cli := p, pi, e.cli
+					switch r.Intn(3) {
+					case 0:
+						fu = "bind-same-client-new-connection"
+					case 1:
+						fu = "bind-other-client-new-connection"
+						cli = cs[r.Intn(len(cs))]
+					default:
+						fu = "bind-by-other-peer"
+						qi = (pi + 1 + r.Intn(2)) % 3
+						q = w.Peers[qi]
+						if r.Intn(2) == 0 {
+							cli = cs[r.Intn(len(cs))]
+						}
+					}
+					log("   peer%d binds %s -> %s (%s)", qi, cli, e.srv, fu)
+					mc := q.Bind(cw.cliAddr(q, cli), sa, cw.locals[e.srv].Typ)
+					c.Events(1)
+					granted := judgeResult("bind/already-bound-after-takeover", qi, mc, takeAll(), "reject")
+					judgeEvents("bind", api.ElementChangeAdd, granted, qi, cw.pfeat[cli].Key(q), cw.locals[e.srv].Key())
+					if !granted {
+						secondRejected++
+					}
+					c.Count("bind:already-bound-after-takeover:"+fu, 1)
+				case 4: // a late request on the replaced connection (it was not removed, so it still delivers): the feature is bound
+					fu = "bind-on-the-old-connection"
+					cli := e.cli
+					if r.Intn(2) == 0 {
+						cli = cs[r.Intn(len(cs))]
+					}
+					log("   peer%d binds %s -> %s on its OLD connection", pi, cli, e.srv)
+					newRD, newTap := p.RD, p.Tap
+					p.RD, p.Tap = oldRD, oldTap
+					oldTap.Take()
+					mc := p.Bind(cw.cliAddr(p, cli), sa, cw.locals[e.srv].Typ)
+					c.Events(1)
+					outs := takeAll()
+					p.RD, p.Tap = newRD, newTap
+					if extra := p.Tap.Take(); len(extra) > 0 {
+						fail("bind/already-bound-after-takeover/unexpected-datagram", "a request on the old connection of peer %d was answered on the new one: %s", pi, rig.JS(extra))
+					}
+					granted := judgeResult("bind/already-bound-after-takeover", pi, mc, outs, "reject")
+					judgeEvents("bind", api.ElementChangeAdd, granted, pi, cw.pfeat[cli].Key(p), cw.locals[e.srv].Key())
+					if !granted {
+						secondRejected++
+					}
+					c.Count("bind:already-bound-after-takeover:"+fu, 1)
+				case 3: // the holder's delete through the new connection finds the binding of its SKI
+					fu = "unbind-by-holder-new-connection"
+					log("   peer%d unbinds %s -> %s", pi, e.cli, e.srv)
+					mc := p.Unbind(cw.cliAddr(p, e.cli), sa)
+					c.Events(1)
+					removed := judgeResult("unbind/present-after-takeover", pi, mc, takeAll(), "grant")
+					if removed {
+						delete(binds, e.srv)
+						unbinds++
+					}
+					judgeEvents("unbind", api.ElementChangeRemove, removed, pi, cw.pfeat[e.cli].Key(p), cw.locals[e.srv].Key())
+					c.Count("unbind:present-after-takeover", 1)
+				}
+				judgeRegistry(what + "/follow-up")
+			}
+			shape = append(shape, fmt.Sprintf("takeover:%d:%d:%s", len(mine), dropped, fu))
 
 		case roll < 90: // ---------------- unbind
 			var cli, srv, kind string
@@ -1018,6 +1198,59 @@ func c09Duel(c *rig.Ctx) {
 			}
 		}
 	}
+	// takeover (every third case): before the concurrent phase one connection (mostly that of peer 0, which holds the bystander
+	// binding and possibly the contested / the twin binding) is replaced by a new connection of the same SKI while the old one
+	// was not removed (SetupRemoteDevice for a registered SKI; same writer, same tree announced again). That is neither a bind
+	// nor a delete; the duel then runs with the new connection. The statement does not say what a replaced connection does to
+	// the peer's own bindings (the sequential part accepts kept and dropped): if the registry is not what it was, the case
+	// is only counted; otherwise everything that holds for the duel holds here as well.
+	takeover := -1
+	if c.Index%3 == 0 {
+		takeover = 0
+		if r.Intn(4) == 0 {
+			takeover = r.Intn(nPeers)
+		}
+		snap := func() string {
+			var es []string
+			for _, f := range []api.FeatureLocalInterface{srv, twin, other} {
+				for _, en := range bm.BindingsOnFeature(*f.Address()) {
+					es = append(es, fmt.Sprintf("#%d %s>%s", en.Id, rkFeatKey(en.ClientFeature), rkFeatKey(en.ServerFeature)))
+				}
+			}
+			for _, q := range w.Peers {
+				es = append(es, fmt.Sprintf("|%d", len(bm.Bindings(q.RD))))
+			}
+			return strings.Join(es, " ")
+		}
+		before := snap()
+		tp := w.Peers[takeover]
+		oldRD := tp.RD
+		w.Local.SetupRemoteDevice(tp.Ski, tp.Tap)
+		tp.RD = w.Local.RemoteDeviceForSki(tp.Ski)
+		if tp.RD == nil || tp.RD == oldRD {
+			c.Inconclusive("duel takeover: SetupRemoteDevice did not register a new connection object for the SKI")
+			return
+		}
+		tp.Announce(rkAnnounceList(clients))
+		// the prebinding results of this peer stay in its tap (same writer); drop only the discovery traffic of the new connection
+		var keep []model.DatagramType
+		for _, d := range tp.Tap.Take() {
+			if rkClassifier(d) == model.CmdClassifierTypeResult {
+				keep = append(keep, d)
+			}
+		}
+		for _, d := range keep {
+			if b, err := json.Marshal(model.Datagram{Datagram: d}); err == nil {
+				tp.Tap.WriteShipMessageWithPayload(b)
+			}
+		}
+		if after := snap(); after != before {
+			c.Count("duel_takeover_changed_the_registry_case_skipped", 1)
+			c.Sample(map[string]any{"takeover": takeover, "before": before, "after": after})
+			return
+		}
+		c.Count(fmt.Sprintf("duel_takeover:variant=%s:peer0=%v:contested_bound=%v", variant, takeover == 0, len(bm.BindingsOnFeature(*srv.Address())) > 0), 1)
+	}
 	w.Core.Take()
 	bystanderSnap := func() string {
 		var es []string
@@ -1349,7 +1582,7 @@ func c09Duel(c *rig.Ctx) {
 			sh = append(sh, fmt.Sprintf("%d:%s:%s:%v:%v:%v", g, s.op, s.cl.Name, s.fc != "", s.fs != "", s.onOther))
 		}
 	}
-	c.Shape(rkHash(append(sh, variant, policy, strings.Join(trace, ","), winner)...))
+	c.Shape(rkHash(append(sh, variant, policy, strings.Join(trace, ","), winner, fmt.Sprint("takeover=", takeover))...))
 	c.NonTrivial(decided && (forced || (policy == "jitter" && overlap)))
 	c.Sample(map[string]any{"variant": variant, "k": k, "policy": policy, "history": hist, "hook_trace": trace, "window_forced": forced, "porcupine": string(res)})
 }
